@@ -13,7 +13,7 @@ let geti k d l = int_of_string (get k (string_of_int d) l)
    call k of thread t in round r allocates one block of this many bytes. *)
 let asize t r k = 64 * (t + 1) + 8 * r + k + 1
 
-type case = { t : int; r : int; n : int; dout : bool; din : bool; grd : bool; faults : (int * int * int) list }
+type case = { t : int; r : int; n : int; dout : bool; din : bool; grd : bool; faults : (int * int * int) list; test : bool }
 
 (* fault token: t:r:g:k | t:r:c:k | t:r:o:k | t:r:i:k  (generator, call, drop of output, drop of input) *)
 let pos_of n dout din ph k =
@@ -34,7 +34,7 @@ let parse_case line =
     | s -> List.map (fun f -> match String.split_on_char ':' f with
         | [t; r; ph; k] -> (int_of_string t, int_of_string r, pos_of n dout din ph (int_of_string k))
         | _ -> failwith "fault") (String.split_on_char ',' s) in
-  { t = geti "T" 2 l; r = geti "R" 1 l; n; dout; din; grd = get "guard" "1" l = "1"; faults }
+  { t = geti "T" 2 l; r = geti "R" 1 l; n; dout; din; grd = get "guard" "1" l = "1"; faults; test = get "test" "0" l = "1" }
 
 let config_of ?(fault_all = None) (c : case) : config =
   { nthreads = nat_of_int c.t; nrounds = nat_of_int c.r; ssize = (fun _ -> nat_of_int c.n);
@@ -116,7 +116,9 @@ let split_impl s =
   | [o; l; a] -> (o, l, a)
   | _ -> failwith "impl line"
 
+(* Action::Test runs the round but records no sample *)
 let model_allocs (c : case) cfg =
+  if c.test then "" else
   let b = Buffer.create 64 in
   for r = 0 to c.r - 1 do
     for t = 0 to c.t - 1 do
